@@ -27,6 +27,45 @@ Theorem C20_pending_gapfree_refuted :
 Proof. exact gapfree_refuted. Qed.
 Print Assumptions C20_pending_gapfree_refuted.
 
+(* Clause 3, unconditional (the listed finding does not touch it): at all
+   times every pooled transaction - pending or queued - is not stale,
+   affordable from the sender's balance and within the block gas limit of the
+   head the pool works on. *)
+Theorem C20_pooled_valid :
+  forall c genesis ops, pooled_valid (run (new_pool c genesis) ops).
+Proof. exact pooled_valid_all_histories. Qed.
+Print Assumptions C20_pooled_valid.
+
+(* Clauses 2, 4, 5 hold for every history in which the ghost flag stays down,
+   i.e. in which demoteUnexecutables never leaves a pending list that has its
+   front (the account nonce) but a hole further up - the one code location of
+   the listed finding.  Any other way of producing a gap, a queued transaction
+   below a pending one, or a pool nonce that runs ahead would contradict this
+   theorem. *)
+Theorem C20_pending_gapfree_holds_outside :
+  forall c genesis ops,
+    gap_seen (run (new_pool c genesis) ops) = false ->
+    let p := run (new_pool c genesis) ops in
+    pending_gapfree p /\ queued_above p /\ pool_nonce_sound p.
+Proof. exact gapfree_holds_outside. Qed.
+Print Assumptions C20_pending_gapfree_holds_outside.
+
+(* ... and unconditionally for the repaired demoteUnexecutables
+   (fixes/C20_pending_gap_after_partial_reinject.diff = the model's gapfix branch) *)
+Theorem C20_state_clauses_after_repair :
+  forall c genesis ops,
+    gapfix c = true ->
+    let p := run (new_pool c genesis) ops in
+    pending_gapfree p /\ queued_above p /\ pool_nonce_sound p.
+Proof. exact gapfree_repaired. Qed.
+Print Assumptions C20_state_clauses_after_repair.
+
+(* Clause 6: what Pending() hands to the block builder is exactly the pending view *)
+Theorem C20_pending_api_exact :
+  forall c genesis ops, pending_api_exact (run (new_pool c genesis) ops).
+Proof. exact pending_api_all_histories. Qed.
+Print Assumptions C20_pending_api_exact.
+
 (* Data-race clause (partial): on the method table regenerated from
    core/tx_pool.go, every entry point of TxPool (exported method or goroutine
    body) other than the listed latent one touches the shared fields only inside
@@ -59,3 +98,14 @@ Example C20_nonvacuous_repair :
   gap_seen p = false /\ gap_seen (run (new_pool (ex_cfg false) ex_genesis) ex_ops) = true.
 Proof. vm_compute. repeat split. Qed.
 Print Assumptions C20_nonvacuous_repair.
+
+(* the hypothesis of C20_pending_gapfree_holds_outside is met by a non-trivial
+   reachable state of the code as it is (head change, 5 submissions, a gapped one) *)
+Example C20_nonvacuous_holds_outside :
+  let p := run (new_pool (ex_cfg false) ex_genesis) (firstn 3 ex_ops) in
+  gap_seen p = false /\ map t_nonce (sort_nonce (held (pending p) 0)) = [5; 6; 7] /\
+  nc_get (pnonces p) 0 = 8 /\ st_nonce (cur_state p) 0 = 5 /\
+  map t_nonce (held (queue p) 1) = [2] /\
+  fst (pending_view p) <> [].
+Proof. vm_compute. repeat split. discriminate. Qed.
+Print Assumptions C20_nonvacuous_holds_outside.
